@@ -978,8 +978,43 @@ pub fn gen_shallow_upto(rng: &mut Rng, max_j: i64) -> Case {
     }
 }
 
+/// The whole case multiplied by 2^k (exact: only exponents change). Exact families stay exact; the integer reference and
+/// the f32 run are switched off (f32 products would leave the exponent range).
+pub fn scaled_by_pow2(mut c: Case, k: i32) -> Case {
+    let f = (2.0f64).powi(k);
+    let m = |p: Pt| -> Pt { (p.0 * f, p.1 * f) };
+    c.a = map_mp(&c.a, &m);
+    c.b = map_mp(&c.b, &m);
+    for fc in c.faces.iter_mut() {
+        fc.0 = m(fc.0);
+    }
+    c.integer = false;
+    c.f32_ok = false;
+    c.exact_f32 = false;
+    c.desc = format!("{} scaled by 2^{}", c.desc, k);
+    c
+}
+
 /// The mixed family stream used by most whole-operation properties.
 pub fn gen_mixed(rng: &mut Rng, size: usize, rejected: &mut u64) -> Case {
+    gen_mixed_unscaled(rng, size, rejected)
+}
+
+/// As `gen_mixed`, but one case in twelve is moved to a very small or very large magnitude by an exact power-of-two
+/// scaling (anything absolute in the library - an epsilon, a fixed sentinel - shows up there). Only for monitors whose
+/// oracles are scale-free (direct region / structure / provenance / subdivision / classification checks).
+pub fn gen_mixed_scaled(rng: &mut Rng, size: usize, rejected: &mut u64) -> Case {
+    let c = gen_mixed_unscaled(rng, size, rejected);
+    if rng.below(12) == 0 {
+        let k = rng.range(40, 200) as i32;
+        let k = if rng.below(3) == 0 { k } else { -k };
+        scaled_by_pow2(c, k)
+    } else {
+        c
+    }
+}
+
+fn gen_mixed_unscaled(rng: &mut Rng, size: usize, rejected: &mut u64) -> Case {
     // size: 1 = quick, larger = thorough
     let (grid, lat, tri, star_n) = match size {
         0 => (4, 3, 3, 8),
